@@ -24,9 +24,6 @@ void harness(void) {
 		&& KSI_VER_ERR_CAL_1 == SPEC_C04_CAL_1 && KSI_VER_ERR_CAL_2 == SPEC_C04_CAL_2 && KSI_VER_ERR_CAL_3 == SPEC_C04_CAL_3
 		&& KSI_VER_ERR_CAL_4 == SPEC_C04_CAL_4 && KSI_OK == 0, "spec/c04_codes.h agrees with the code table of policy.h");
 	c04_world_build();
-#ifdef C04_WELLFORMED
-	c04_assume_wellformed();
-#endif
 	info = nondet_bool() ? &g_c04_info : NULL;
 	result = nondet_bool() ? &g_c04_result : NULL;
 	g_c04_result.resultCode = KSI_VER_RES_NA;
